@@ -371,11 +371,22 @@ func pinnedC14(t *mon.T) {
 	t.Count("pinned")
 }
 
+// wordsC14: what other notations write where a number is expected. None of
+// it is in the grammar except where the recogniser says so; all five entry
+// points must agree with it (a parser that quietly ignores "null" leaves the
+// destination's previous value in place).
+var wordsC14 = []string{"null", "NULL", "Null", "nil", "none", "None", "undefined", "true", "false", "NA", "N/A", "n/a", "-", "+", "~", "?", "#N/A",
+	"NaN()", "nan(123)", "nan(ind)", "qnan", "QNaN", "inf.", "Inf0", "infinity1", "+infinite", "INFINIT", "1.#INF", "1.#QNAN", "-1.#IND",
+	"\u221e", "-\u221e", "1,5", "1,000", "1'000", "1 000", "\u0661\u0662\u0663", "\uff11\uff12\uff13", "0b1", "0o7", "0x1p3", "1f", "1d", "1L", "1n", "1e5f", "1m",
+	"\x00", "1\x00", "\x001", "1\n", "1\r\n", "\t1", "\"1\"", "'1'", "[1]", "{}", "()", "(1)", "1%", "$1", "\u22121", "\u00b11", "1e\u22125", "1\u00d710^5", "1*10^5",
+	"1e+-5", "1E 5", "1 E5", "1.2.3", "..1", "1..", "0.", ".0", "00", "-00.00", "+.0E+0", "1e0000000000000000000005", "1e-0000000000000000000005",
+	"snan0x1", "sNaN-", "NaNsNaN", "nannan", "infinf", "infinityinfinity", "-infinity-", "i", "in", "na", "sn", "sna", "s", "e", "E", "-e", ".e1", "-.e1"}
+
 func runC14(r *mon.Run) {
 	r.Rule = "String(): Decimals over the whole exponent range with dense sampling at the plain/scientific switch-over points and the zero " +
 		"exception, compared with an independent to-scientific-string writer. Parsing: sentences generated from the grammar (all optional " +
 		"parts toggled, long digit runs, payloads, mixed case, exponents at the +/-100000 limits; a few strings of 64 KB to 400 KB with redundant zeros), single-byte insert/delete/replace/" +
-		"duplicate/swap mutations of them, fragment concatenations and random bytes; NewFromString, SetString, UnmarshalText and " +
+		"duplicate/swap mutations of them, fragment concatenations and random bytes, and a list of what other notations write where a number is expected (null, nil, true, N/A, 1,000, 0x1p3, non-ASCII digits and signs, ...); NewFromString, SetString, UnmarshalText and " +
 		"Scan(string/[]byte) must agree with each other and with an independent DFA recogniser (must-accept / must-reject), " +
 		"and accepted strings must yield the recogniser's value. Format: verbs e E f F g G v s with flag subsets of {+,space,-,0} and " +
 		"widths 0..30 against a padding model that is calibrated against fmt's own float64 output at run time. distinct_nontrivial = " +
@@ -395,6 +406,11 @@ func runC14(r *mon.Run) {
 		t.Count("parse-giant-fraction")
 	})
 	r.Require("parse-giant-fraction", 60)
+	r.Parallel("parse-words", int64(len(wordsC14)), func(t *mon.T) {
+		parseAcceptString(t, wordsC14[t.Index])
+		t.Count("parse/words")
+	})
+	r.Require("parse/words", int64(len(wordsC14)))
 	r.Parallel("format", r.N(150000, 10000000), formatCase)
 	for _, cl := range []string{"parse/must-accept", "parse/must-reject", "parse/language-boundary", "string/zero-exception-zone", "string/adjusted-switch-zone",
 		"string/exponent-switch-zone", "format/e", "format/f", "format/G", "format/v", "format/s", "format/F"} {
